@@ -265,7 +265,7 @@ theorem dispatch_ne_none {D} (c : Cfg D) (s : St D) (op : Nat) (ops : List Nat) 
   by_cases h11 : op = 0x2D
   · rw [if_pos h11] at h; exact absurd h (Option.some_ne_none _)
   rw [if_neg h11] at h
-  by_cases h12 : isUnknownOpcode op = true
+  by_cases h12 : isUnknownFor c.axisCount op = true
   · rw [if_pos h12] at h; exact absurd h (Option.some_ne_none _)
   rw [if_neg h12] at h
   exact absurd h (Option.some_ne_none _)
@@ -307,7 +307,7 @@ theorem dispatch_rel {D} {c : Cfg D} {s s2 : St D} {op : Nat} {ops : List Nat}
   by_cases h11 : op = 0x2D
   · rw [if_pos h11] at h; exact leave_rel (Option.some.inj h)
   rw [if_neg h11] at h
-  by_cases h12 : isUnknownOpcode op = true
+  by_cases h12 : isUnknownFor c.axisCount op = true
   · rw [if_pos h12] at h; exact doCall_rel (Option.some.inj h)
   rw [if_neg h12] at h
   exact opData_rel (Option.some.inj h)
